@@ -392,35 +392,45 @@ Proof.
     erewrite map_nth_error by exact H; reflexivity.
 Qed.
 
-(** continuity in the masses: if Re Jb, Re Jf are L-Lipschitz (validated numerically; true with
-    L ~ 1 away from the branch points), the thermal sum moves by at most
-    T^4/(2 pi^2) L/(T^2+eps) sum_i |n_i| |m_i - m_i'| *)
-Theorem mass_lipschitz mB mB' nB mF mF' nF T L :
-  (forall x y, Rabs (fst (S.Jb e x) - fst (S.Jb e y)) <= L * Rabs (x - y)) ->
-  (forall x y, Rabs (fst (S.Jf e x) - fst (S.Jf e y)) <= L * Rabs (x - y)) ->
+(** continuity in the masses.  Re Jb, Re Jf are NOT globally Lipschitz with a useful constant
+    (|dRe Jb/dx| reaches 3 below the first branch point), so the bound is required on an interval
+    [a, b] of arguments only -- the harness validates L = pi^2/12 (1.01) for Jb on [-9.5, 60] and
+    0.6 for Jf on [-6, 60] -- and all m^2/(T^2+eps) are assumed inside.  Then the thermal sum moves
+    by at most  T^4/(2 pi^2) / (T^2+eps) (Lb sum_b |n_i||dm_i^2| + Lf sum_f |n_i||dm_i^2|). *)
+Definition args_in (a b T : R) (m : list R) : Prop :=
+  Forall (fun x => a <= x / (T ^ 2 + eps) <= b) m.
+
+Theorem mass_lipschitz ab bb af bf mB mB' nB mF mF' nF T Lb Lf :
+  (forall x y, ab <= x <= bb -> ab <= y <= bb ->
+     Rabs (fst (S.Jb e x) - fst (S.Jb e y)) <= Lb * Rabs (x - y)) ->
+  (forall x y, af <= x <= bf -> af <= y <= bf ->
+     Rabs (fst (S.Jf e x) - fst (S.Jf e y)) <= Lf * Rabs (x - y)) ->
+  args_in ab bb T mB -> args_in ab bb T mB' -> args_in af bf T mF -> args_in af bf T mF' ->
   length nB = length mB -> length mB = length mB' ->
   length nF = length mF -> length mF = length mF' ->
   Rabs (thermal_value mB nB mF nF T - thermal_value mB' nB mF' nF T) <=
-  T ^ 4 / (2 * PI * PI) * (L / (T ^ 2 + eps)) *
-  (sumR (zipR (fun p q => p * q) (map Rabs nB) (map Rabs (zipR (fun p q => p - q) mB mB'))) +
-   sumR (zipR (fun p q => p * q) (map Rabs nF) (map Rabs (zipR (fun p q => p - q) mF mF')))).
+  T ^ 4 / (2 * PI * PI) * / (T ^ 2 + eps) *
+  (Lb * sumR (zipR (fun p q => p * q) (map Rabs nB) (map Rabs (zipR (fun p q => p - q) mB mB'))) +
+   Lf * sumR (zipR (fun p q => p * q) (map Rabs nF) (map Rabs (zipR (fun p q => p - q) mF mF')))).
 Proof.
-  intros Lb Lf B1 B2 F1 F2.
+  intros HLb HLf Ib Ib' If If' B1 B2 F1 F2.
   assert (He : 0 < T ^ 2 + eps).
   { assert (0 <= T ^ 2) by (simpl; nra). pose proof eps_pos. lra. }
-  assert (scaled : forall (J : R -> R * R),
-    (forall x y, Rabs (fst (J x) - fst (J y)) <= L * Rabs (x - y)) ->
-    forall x y, Rabs ((fun m => fst (J (m / (T ^ 2 + eps)))) x -
-                      (fun m => fst (J (m / (T ^ 2 + eps)))) y)
-                <= L / (T ^ 2 + eps) * Rabs (x - y)).
-  { intros J HJ x y. cbv beta. eapply Rle_trans; [apply HJ|].
+  assert (scaled : forall (J : R -> R * R) a b L,
+    (forall x y, a <= x <= b -> a <= y <= b ->
+       Rabs (fst (J x) - fst (J y)) <= L * Rabs (x - y)) ->
+    forall x y, a <= x / (T ^ 2 + eps) <= b -> a <= y / (T ^ 2 + eps) <= b ->
+      Rabs ((fun m => fst (J (m / (T ^ 2 + eps)))) x -
+            (fun m => fst (J (m / (T ^ 2 + eps)))) y)
+      <= L * / (T ^ 2 + eps) * Rabs (x - y)).
+  { intros J a b L HJ x y Hx Hy. cbv beta. eapply Rle_trans; [apply HJ; assumption|].
     replace (x / (T ^ 2 + eps) - y / (T ^ 2 + eps)) with ((x - y) * / (T ^ 2 + eps))
       by (field; lra).
     rewrite Rabs_mult, (Rabs_pos_eq (/ (T ^ 2 + eps)))
       by (left; apply Rinv_0_lt_compat; lra).
-    unfold Rdiv. right. ring. }
-  pose proof (sumR_zip_lipschitz _ _ nB mB mB' (scaled _ Lb) B1 B2) as Db.
-  pose proof (sumR_zip_lipschitz _ _ nF mF mF' (scaled _ Lf) F1 F2) as Df.
+    right. ring. }
+  pose proof (sumR_zip_lipschitz _ _ _ nB mB mB' (scaled _ _ _ _ HLb) Ib Ib' B1 B2) as Db.
+  pose proof (sumR_zip_lipschitz _ _ _ nF mF mF' (scaled _ _ _ _ HLf) If If' F1 F2) as Df.
   unfold thermal_value.
   set (a := sumR (zipR _ nB (map _ mB))) in *. set (a' := sumR (zipR _ nB (map _ mB'))) in *.
   set (b := sumR (zipR _ nF (map _ mF))) in *. set (b' := sumR (zipR _ nF (map _ mF'))) in *.
@@ -430,10 +440,27 @@ Proof.
   replace ((a + b) * T ^ 4 / (2 * PI * PI) - (a' + b') * T ^ 4 / (2 * PI * PI))
     with (((a - a') + (b - b')) * (T ^ 4 * / (2 * PI * PI))) by (unfold Rdiv; ring).
   rewrite Rabs_mult, (Rabs_pos_eq (T ^ 4 * / _)) by nra.
-  assert (Hab : Rabs (a - a' + (b - b')) <= L / (T ^ 2 + eps) * (sb + sf)).
+  assert (Hab : Rabs (a - a' + (b - b')) <= / (T ^ 2 + eps) * (Lb * sb + Lf * sf)).
   { eapply Rle_trans; [apply Rabs_triang|]. lra. }
   assert (0 <= T ^ 4 * / (2 * PI * PI)) by nra.
   unfold Rdiv in *. nra.
+Qed.
+
+(** the interval hypotheses are satisfiable together with the closed forms at 0 (affine J) *)
+Example lipschitz_hypotheses_satisfiable :
+  exists (e0 : S.env) (L : R), 0 < L /\
+    fst (S.Jb e0 0) = - PI ^ 4 / 45 /\ fst (S.Jf e0 0) = - 7 * PI ^ 4 / 360 /\
+    (forall x y, -1 <= x <= 1 -> -1 <= y <= 1 ->
+       Rabs (fst (S.Jb e0 x) - fst (S.Jb e0 y)) <= L * Rabs (x - y)) /\
+    (forall x y, -1 <= x <= 1 -> -1 <= y <= 1 ->
+       Rabs (fst (S.Jf e0 x) - fst (S.Jf e0 y)) <= L * Rabs (x - y)).
+Proof.
+  exists (S.mk_env (fun x => (- PI ^ 4 / 45 + x / 2, 0)) (fun x => (- 7 * PI ^ 4 / 360 - x / 3, 0))), 1.
+  cbn [S.Jb S.Jf fst]. repeat split; try lra; intros x y _ _.
+  - replace (- PI ^ 4 / 45 + x / 2 - (- PI ^ 4 / 45 + y / 2)) with ((x - y) * / 2) by field.
+    rewrite Rabs_mult, (Rabs_pos_eq (/ 2)) by lra. pose proof (Rabs_pos (x - y)). lra.
+  - replace (- 7 * PI ^ 4 / 360 - x / 3 - (- 7 * PI ^ 4 / 360 - y / 3)) with ((x - y) * - / 3) by field.
+    rewrite Rabs_mult, Rabs_Ropp, (Rabs_pos_eq (/ 3)) by lra. pose proof (Rabs_pos (x - y)). lra.
 Qed.
 
 (** the hypotheses of the two theorems are satisfiable (e.g. constant J) *)
@@ -883,8 +910,9 @@ Theorem shipped_path_beyond_table : forall direct spline (x : R) rb rf,
   (exists vf, beyond_table Ctors.DefaultInterp_Jf_upper (IZR (rre rf) / IZR U) direct spline x
               = Some vf /\ Rabs vf <= / 10000000)%R /\
   Ctors.DefaultInterp_Jb_lower = Ctors.XCONSTANT /\ Ctors.DefaultInterp_Jf_lower = Ctors.XCONSTANT /\
-  (* the settings are applied to a private copy, not to the module-level defaultIntegrals *)
-  Ctors.DefaultInterpAliasesGlobal = false.
+  (* the settings are applied to a private copy, not to the module-level defaultIntegrals, and
+     the rebuilt spline of that copy uses the same (default, not-a-knot) end condition *)
+  Ctors.DefaultInterpAliasesGlobal = false /\ Ctors.SplineEndCondition_not_a_knot = true.
 Proof.
   intros direct spline x rb rf Hb Hf. repeat split.
   - eexists. split; [reflexivity|].
@@ -1002,15 +1030,18 @@ Theorem thermal_sum_array : forall (e : S.env) opt mB nB mF nF Ts i T,
 Proof. exact array_is_map_of_scalar. Qed.
 Print Assumptions thermal_sum_array.
 
-Theorem continuous_in_masses : forall (e : S.env) mB mB' nB mF mF' nF T L,
-  (forall x y, Rabs (fst (S.Jb e x) - fst (S.Jb e y)) <= L * Rabs (x - y)) ->
-  (forall x y, Rabs (fst (S.Jf e x) - fst (S.Jf e y)) <= L * Rabs (x - y)) ->
+Theorem continuous_in_masses : forall (e : S.env) ab bb af bf mB mB' nB mF mF' nF T Lb Lf,
+  (forall x y, ab <= x <= bb -> ab <= y <= bb ->
+     Rabs (fst (S.Jb e x) - fst (S.Jb e y)) <= Lb * Rabs (x - y)) ->
+  (forall x y, af <= x <= bf -> af <= y <= bf ->
+     Rabs (fst (S.Jf e x) - fst (S.Jf e y)) <= Lf * Rabs (x - y)) ->
+  args_in ab bb T mB -> args_in ab bb T mB' -> args_in af bf T mF -> args_in af bf T mF' ->
   length nB = length mB -> length mB = length mB' ->
   length nF = length mF -> length mF = length mF' ->
   Rabs (thermal_value e mB nB mF nF T - thermal_value e mB' nB mF' nF T) <=
-  T ^ 4 / (2 * PI * PI) * (L / (T ^ 2 + S.SMALL_NUMBER)) *
-  (sumR (zipR (fun p q => p * q) (map Rabs nB) (map Rabs (zipR (fun p q => p - q) mB mB'))) +
-   sumR (zipR (fun p q => p * q) (map Rabs nF) (map Rabs (zipR (fun p q => p - q) mF mF')))).
+  T ^ 4 / (2 * PI * PI) * / (T ^ 2 + S.SMALL_NUMBER) *
+  (Lb * sumR (zipR (fun p q => p * q) (map Rabs nB) (map Rabs (zipR (fun p q => p - q) mB mB'))) +
+   Lf * sumR (zipR (fun p q => p * q) (map Rabs nF) (map Rabs (zipR (fun p q => p - q) mF mF')))).
 Proof. exact mass_lipschitz. Qed.
 Print Assumptions continuous_in_masses.
 
